@@ -132,6 +132,7 @@ func (tree *ObjectTree) newObject(opcode uint16, tableHandle uint8) *Object {
 	obj.opcode = opcode
 	obj.infoIndex = pOpcodeTableIndex(opcode, true)
 	obj.tableHandle = tableHandle
+	obj.name = [amlNameLen]byte{}
 	obj.parentIndex = InvalidIndex
 	obj.prevSiblingIndex = InvalidIndex
 	obj.nextSiblingIndex = InvalidIndex
